@@ -4,7 +4,8 @@ C18 — the absolute time of every sample survives date-time bookkeeping.
 Tie: strict Rat correspondence of the Lean state machine (`Model/Dtg.lean`: ref, t, cache) with `TimeSeries` on HISTORIES:
 construction (floats +/- reference, datetime stamps, numpy.datetime64 stamps of resolution us/ms/s, reference given as datetime
 or datetime64) followed by sequences of `set_dtg_ref(x | None | non-datetime)`, `copy()`, `dtg_time` reads.  After every step
-`dtg_ref`, `t`, the cache `_dtg_time`, `dtg_start`, `dtg_end` and the rejection are compared.  Times / instants are multiples of
+`dtg_ref`, `t`, `dtg_start`, `dtg_end`, the value returned by a `dtg_time` read and the rejection are compared (the cache is not
+compared as state: an implementation may cache more or less, what it caches must equal reference + time -- an oracle).  Times / instants are multiples of
 1/64 s (= 15625 us, dyadic): `timedelta(seconds=.)`, `total_seconds()` and the float additions are exact there.  All histories up
 to length 3 (quick) / 4 (thorough) over a 7-letter alphabet are enumerated for every constructor, plus seeded random ones.
 Also `TsDB._check_time_arrays`' reference rule (`dtg.refs`).
@@ -134,21 +135,26 @@ def parse_state(s):
     return (opt(ref), lst(t), None if cache == "-" else lst(cache), opt(st), opt(en))
 
 
-def parse_model(o):
+def parse_model(o, ops):
+    """model trace in observable form: (result, (ref, t, value returned by dtg_time at a read step else None, start, end)).
+    The cache itself is NOT compared as state: the implementation may cache or not, as long as what it caches equals
+    reference + relative time (oracle `cache_consistent`; the model satisfies this by theorem `cache_consistent`)."""
     toks = o.split()
     if toks[:2] == ["err", "empty"]:
         return "err:empty"
-    out = [("ok", parse_state(toks[1]))]
-    for tk in toks[2:]:
-        res, st = tk.split("=", 1)
-        out.append(("err" if res.startswith("err") else "ok", parse_state(st)))
+    r, t, c, st, en = parse_state(toks[1])
+    out = [("ok", (r, t, None, st, en))]
+    for tk, op in zip(toks[2:], ops):
+        res, st_ = tk.split("=", 1)
+        r, t, c, st, en = parse_state(st_)
+        out.append(("err" if res.startswith("err") else "ok", (r, t, c if op == "read" else None, st, en)))
     return out
 
 
-def snap(ts):
-    """observable state as exact rationals (same shape as the model's)"""
+def snap(ts, ret=None):
+    """observable state as exact rationals (same shape as the model's); `ret` = value returned by dtg_time at a read step"""
     ref = ts.dtg_ref
-    cache = getattr(ts, "_dtg_time", None)
+    cache = ret
     try:
         st, en = ts.dtg_start, ts.dtg_end
     except Exception as e:
@@ -278,7 +284,7 @@ def play(case, fail, tol):
             fail("dtg_start / dtg_end are the first / last absolute instant", show(want), show(se), "start_end@" + where)
         if a0 is None and a_post is not None:
             a0 = a_post
-        trace.append(("ok", snap(ts)))
+        trace.append(("ok", snap(ts, ret)))
     # end of history: what the user reads now is what it was when the series first had a reference
     try:
         final = ts.dtg_time
@@ -450,7 +456,7 @@ def check_refs(chk, drv):
             starts = set(ts.dtg_start for ts in cont.values())
             if len(starts) != 1 or None in starts:
                 chk.fail("series declared to have a common time array (one of them with a reference) start at the same instant", inp,
-                         "one start instant", sorted(show(s) for s in starts), clause="refs_common_abs")
+                         "one start instant", sorted(str(show(s)) for s in starts), clause="refs_common_abs")
         if tc["dtg_ref"] is not None and any(ts.dtg_ref != tc["dtg_ref"] for ts in cont.values()):
             chk.fail("the reported common reference is the reference of every series", inp, show(tc["dtg_ref"]),
                      [show(ts.dtg_ref) for ts in cont.values()], clause="refs_common_ref")
@@ -509,7 +515,7 @@ def run(chk):
         chk.count("dtg.run")
         fails = []
         trace, nontrivial = play(case, lambda *a: fails.append(a), 0.0)
-        mod = parse_model(o) if not o.startswith("bad-op") else o
+        mod = parse_model(o, case["ops"]) if not o.startswith("bad-op") else o
         if trace != mod:
             if isinstance(trace, str) or isinstance(mod, str):
                 chk.disagree("dtg.run", case, show_trace(mod), show_trace(trace))
@@ -620,7 +626,7 @@ def replay(rp):
     print("history:", case["ctor"], case.get("stampkind"), "ref", case.get("ref"), "ops", case["ops"])
     if not isinstance(trace, str):
         for r, st in trace:
-            print("  ", r, "ref", show(st[0]), "t", show(st[1][:6]), "cache", "-" if st[2] is None else "filled")
+            print("  ", r, "ref", show(st[0]), "t", show(st[1][:6]))
     for (oracle, exp, obs, clause) in fails:
         print("FAILS [%s]: %s\n   expected %s\n   observed %s" % (clause, oracle, exp, obs))
     print("replay: %d failing clause(s)" % len(fails))
